@@ -148,5 +148,17 @@ def check(ctx):
     for fn in ("send", "send_with", "send_derived"):
         delegation.thin(ctx, "R03.8", "multi::multi::Multi::" + fn, fn, "what a producer hands to the Multi is what the channel fans out; the answer is the channel's")
     ctx.floor("R03.8", 3)
+    # ------------------------------------------------------------------ R03.9 the fan-out list is the live-listener set: rebuilt once after every id take / release (shared with C10 R10.2)
+    # (a "fast path" that patches the list in place -- truncate on drop, append on create -- relies on an ordering the recycled ids do not have and leaves a live
+    #  listener out of every later fan-out although the listener set is stable from then on)
+    C10 = importlib.import_module("props.C10")
+    sub = type(ctx)(ctx.pid, fx, ctx.tier, ctx.config)
+    C10.check(sub)
+    n9 = 0
+    for o in sub.obs:
+        if o["rule"] == "R10.2" and ("resyncs-live-list" in o["key"] or "takes-one-vacant-id" in o["key"] or "returns-its-id-once" in o["key"]):
+            n9 += 1
+            ctx.ob("R03.9", o["key"].split("|", 1)[1] if o["key"].startswith("R10.2|") else o["key"], o["ok"], o["site"], o["detail"], o["nontrivial"])
+    ctx.floor("R03.9", 4)
     ctx.floor("R03.7", 8)
     ctx.floor("R03.1", 18); ctx.floor("R03.2", 20); ctx.floor("R03.3", 10); ctx.floor("R03.4", 6); ctx.floor("R03.5", 10); ctx.floor("R03.6", 20)
